@@ -25,7 +25,7 @@ ASSUMPTIONS = ["reference semantics = PHREEQC-2 manual tables 8/9 + doc/RELEASE 
                "relations yield 1/0 and AND/OR/XOR act bitwise on integers (DESIGN C17)",
                "+ - * / SQRT are IEEE-754 double operations in both implementations; Python % formatting equals C printf",
                "constructs the documentation leaves open are excluded and counted (undef:* / avoided:*), see the module's report",
-               "five recorded findings are excluded by construction and re-run from replays/C17/known"]
+               "four recorded findings (NOT, MOD, TRIM/INSTR argument, unnumbered lines) are excluded by construction and re-run from replays/C17/known"]
 TECHNIQUE = "property-based testing (Hypothesis): differential evaluation of generated programs against a reference interpreter in four hosts; mutation fuzzing of program text with an error/agreement oracle and an ASan leg"
 LEVEL_TEXT = ("Exploration: thousands of generated programs per run are evaluated by the engine in four hosts and by an independent "
               "reference; every delivered value is compared (1e-12 relative plus the reference's propagated rounding bound, strings exactly). "
@@ -457,7 +457,7 @@ def cmp_print(groups, res):
                 except ValueError:
                     raise Violation("print_value", "USER_PRINT line %d item %d: %r is not a number, reference %s\nline %r" % (gi + 1, vi + 1, tok, show(x), line))
                 # PRINT shows integers in full and other numbers with 5 significant digits (%12.4e)
-                if not close(x, y, 0.0 if ("e" not in tok.lower() and "." not in tok and abs(x.v) < 1e15) else 6e-5):
+                if not close(x, y, 0.0 if ("e" not in tok.lower() and "." not in tok) else 6e-5):
                     raise Violation("print_value", "USER_PRINT line %d item %d: printed %r, reference %s\nline %r" % (gi + 1, vi + 1, tok, show(x), line))
             else:
                 want = x + " "
@@ -569,15 +569,13 @@ def check_valid(case, ctx):
     cmp_punch(flat, res)
     hosts.append("USER_PUNCH")
     # 2. USER_PRINT: parsed from the output string (printed precision)
-    if all(abs(x.v) < 1e100 for x in flat if isinstance(x, br.Num)):
-        res = E.run(host_print(lines), output=True)
-        check_alive(res, "USER_PRINT", True)
-        if res["rc"] != 0:
-            raise Violation("valid_rejected", "USER_PRINT: the engine rejects a program the reference evaluates: %s" % first_error(res))
-        cmp_print(r.outputs, res)
-        hosts.append("USER_PRINT")
-    else:
-        ctx.event("host_skipped:print_huge_value")
+    res = E.run(host_print(lines), output=True)
+    check_alive(res, "USER_PRINT", True)
+    if res["rc"] != 0:
+        raise Violation("valid_rejected", "USER_PRINT: the engine rejects a program the reference evaluates: %s" % first_error(res))
+    cmp_print(r.outputs, res)
+    hosts.append("USER_PRINT")
+    huge = any(abs(x.v) >= 1e240 for x in flat if isinstance(x, br.Num))
     nv = numeric_view(flat)
     # 3. CALCULATE_VALUES: SAVE -> CALC_VALUE
     ns = min(KSLOTS, len(nv))
@@ -621,6 +619,8 @@ def check_valid(case, ctx):
            "strings_delivered:%s" % any(not isinstance(x, br.Num) for x in flat)] + stat_classes(r.stats)
     if "shuffled_lines" in (case.get("features") or []):
         cls.append("shuffled_line_order")
+    if huge:
+        cls.append("exec:whole_number_1e240_or_more")
     return {"nontrivial": nt, "classes": cls}
 
 
